@@ -28,12 +28,11 @@ import core
 TRUST = [
     "sklearn NearestNeighbors.kneighbors_graph is an input of the model: read from the public adjacency_matrix, validated per case by the model's isKnnRelation and by brute-force distances (tie-breaking left free); assumed deterministic for equal input (NNDVI builds its partitioner internally)",
     "np.random.permutation: the index permutations drawn are inputs, captured by a wrapper that checks out == v[idx] for idx drawn from the same RNG state",
-    "scipy.stats.norm.ppf(1 - alpha) supplies the critical value z (oracle); norm.fit / norm.ppf(q, mu, std) are modelled (mean, population std, z*std + mu, NaN when std = 0)",
+    "scipy.stats.norm.ppf(1 - alpha) supplies the critical value z (oracle); norm.fit and the threshold z*std + mu are modelled (mean, population std; defined also for std = 0)",
     "coordinates are dyadic (integers or multiples of 2^-8), so squared distances are exact in binary64 and sklearn's distance expansion cannot reorder neighbours; NaN, -0.0, empty samples and samples of different widths are excluded",
     "numpy's pairwise summation order is not modelled: numeric observables are compared with relative tolerance 1e-9, decisions within 1e-9 of their threshold are truncated (thin margin)",
 ]
 
-KNOWN_ZERO_VAR = {"class": "nndvi-zero-variance-threshold-nan"}
 
 
 # ------------------------------------------------------------------ generators
@@ -345,28 +344,16 @@ def run_sequence(NNDVI, NNSP, case, z, theta_equal_counter=None):
         if obs["state"] not in (None, "drift"):
             fail("nndvi-state", "drift_state is neither None nor 'drift'", t, state=repr(obs["state"]))
             break
-        if sd > 1e-9 * max(1.0, abs(mu)):
-            if theta_equal_counter is not None and d == mu + z * sd:
-                theta_equal_counter.append(t)
-            theta = mu + z * sd
-            step["theta"] = theta
-            step["margin"] = abs(d - theta) / max(1.0, abs(d), abs(theta))
-            if drift != (d > theta) and (step["margin"] > 1e-9 or case.get("exact")):
-                fail("nndvi-decision", "drift_state differs from [distance > mean + z*std of the re-assignment distances]", t,
-                     distance=d, threshold=theta, mean=mu, std=sd, z=z, impl_state=obs["state"])
-                break
-        else:
-            # degenerate fit (all re-assignment distances equal): norm.ppf(q, mu, 0) is NaN
-            step["theta"] = float("nan") if sd == 0.0 else mu
-            step["margin"] = 0.0 if sd != 0.0 else abs(d - mu)
-            if drift and d < mu - 1e-9:
-                fail("nndvi-decision", "drift although the distance is below every re-assignment distance", t,
-                     distance=d, mean=mu, std=sd)
-                break
-            if (not drift) and d > mu + 1e-9 and sd == 0.0:
-                fail(KNOWN_ZERO_VAR, "all re-assignment distances are equal (std = 0): scipy's norm.ppf(1-alpha, mu, 0) is NaN, "
-                     "so no drift is reported although the distance exceeds the (degenerate) quantile mu", t,
-                     distance=d, mean=mu, std=sd, impl_state=obs["state"])
+        # threshold = norm.ppf(1 - alpha) * std + mu, also when all re-assignment distances coincide (std = 0)
+        theta = z * sd + mu
+        if theta_equal_counter is not None and d == theta and sd > 0:
+            theta_equal_counter.append(t)
+        step["theta"] = theta
+        step["margin"] = abs(d - theta) / max(1.0, abs(d), abs(theta))
+        if drift != (d > theta) and (step["margin"] > 1e-9 or case.get("exact")):
+            fail("nndvi-decision", "drift_state differs from [distance > mean + z*std of the re-assignment distances]", t,
+                 distance=d, threshold=theta, mean=mu, std=sd, z=z, impl_state=obs["state"])
+            break
         # reference replaced iff drift
         exp_ref = np.asarray(X, dtype=float) if drift else pre_ref
         if obs["ref"].shape != exp_ref.shape or not np.array_equal(obs["ref"], exp_ref):
@@ -443,21 +430,19 @@ def compare_sequence(ctx, case_id, case, steps, outs):
         head = r["head"][1:]
         if toks[0] == "ok":
             md = core.b2f(r["d"][0])
-            mth = float("nan") if r["th"][0] == "nan" else core.b2f(r["th"][0])
+            mth = core.b2f(r["th"][0])
             if r["knn"] != ["1"]:
                 mm(s["t"], "adjacency (isKnnRelation)", s["part"]["adj"].tolist(), "rejected by the model's predicate"); return
             if not core.close(md, s["d"]):
                 mm(s["t"], "distance", s["d"], md); return
-            # thin margins: the decision std > 0, and the decision d > theta
-            tiny_std = s["std"] <= 1e-9 * max(1.0, abs(s["mu"]))
+            # thin margin of the decision d > theta
             mstate = head[0]
             if mstate != core.dstr(o["state"]):
-                margin = min(abs(md - mth) / max(1.0, abs(md), abs(mth)) if mth == mth else 1.0,
-                             s["margin"] if s["margin"] is not None else 1.0)
-                if (tiny_std or margin <= 1e-9) and not case.get("exact"):
+                margin = min(abs(md - mth) / max(1.0, abs(md), abs(mth)), s["margin"] if s["margin"] is not None else 1.0)
+                if margin <= 1e-9 and not case.get("exact"):
                     ctx.thin += 1; return
                 mm(s["t"], "drift_state", o["state"], mstate); return
-            if not tiny_std and not core.close(mth, s["theta"]):
+            if not core.close(mth, s["theta"]):
                 mm(s["t"], "threshold", s["theta"], mth); return
         if head != [core.dstr(o["state"]) if o["state"] in (None, "warning", "drift") else "?", str(o["total"]), str(o["since"])]:
             mm(s["t"], "state/counters", [o["state"], o["total"], o["since"]], head); return
@@ -468,7 +453,8 @@ def compare_sequence(ctx, case_id, case, steps, outs):
 
 # ------------------------------------------------------------------ corpus
 CORPUS_SEQ = [
-    # degenerate threshold: k = |D| makes every re-assignment distance equal (std = 0)
+    # k = |D| makes every re-assignment distance equal (std = 0, threshold = mean = 0): d = 0.2 must be reported
+    # as drift (was a NaN threshold before /repo commit fe25b1e)
     {"k": 4, "st": 5, "alpha": 0.05, "ref": np.array([[0.0], [1.0]]), "batches": [np.array([[1.0], [2.0], [3.0]])],
      "seeds": [0], "kind": "corpus"},
     # F5 (fixed): unequal sizes
@@ -480,6 +466,23 @@ CORPUS_PAIRS = [
     {"k": 1, "s1": np.array([[1.0, 1.0]]), "s2": np.array([[1.0, 1.0]]), "kind": "corpus"},
     {"k": 5, "s1": np.array([[0.0], [0.0], [1.0]]), "s2": np.array([[1.0], [0.0]]), "kind": "corpus"},
 ]
+
+
+def zero_spread_cases(rng):
+    """k = |D| (complete neighbourhood graph): every re-assignment distance equals |2|v_ref| - m| / m, so std = 0 and
+    the threshold is that value; with |v_ref| = m/2 it is exactly 0.  A test batch covering more than m/2 points
+    is at distance > 0 (drift), one covering exactly the complementary half is at distance 0 (= threshold: no drift)."""
+    out = []
+    for j in range(6):
+        m = int(rng.choice([4, 6, 8]))
+        pts = rng.permutation(np.arange(m, dtype=float) * float(rng.choice([1.0, 0.5, 3.0]))).reshape(-1, 1)
+        ref, rest = pts[:m // 2], pts[m // 2:]
+        more = np.vstack([rest, ref[:int(rng.integers(1, m // 2 + 1))]])
+        batches = [rest, more] if j % 2 == 0 else [more, rest]
+        out.append({"k": m, "st": int(rng.choice([5, 30])), "alpha": float(rng.choice([0.01, 0.05, 0.5])), "ref": ref,
+                    "batches": batches, "seeds": [int(x) for x in rng.integers(0, 2**31 - 1, size=2)],
+                    "kind": "zero-spread", "exact": True})
+    return out
 
 
 def boundary_cases(NNSP):
@@ -563,7 +566,7 @@ def run(ctx):
     ctx.extra["t_pairs_s"] = round(ctx.elapsed(), 1)
     # ---- sequences
     bnd = boundary_cases(NNSP)
-    seqs = list(CORPUS_SEQ) + bnd + [gen_sequence(rng, i) for i in range(n_seq)]
+    seqs = list(CORPUS_SEQ) + bnd + zero_spread_cases(rng) + [gen_sequence(rng, i) for i in range(n_seq)]
     i = -1
     while i + 1 < len(seqs):
         i += 1
@@ -574,7 +577,7 @@ def run(ctx):
         ctx.count("step:distance == threshold exactly", len(eq))
         # boundary-seeking probes: the same first batch and draws with alpha chosen so that the
         # threshold lands 1% (in units of z*std) on either side of the observed distance
-        if c["kind"] not in ("corpus", "probe", "boundary") and steps and steps[0]["std"] is not None and steps[0]["std"] > 1e-6:
+        if c["kind"] not in ("corpus", "probe", "boundary", "zero-spread") and steps and steps[0]["std"] is not None and steps[0]["std"] > 1e-6:
             t = (steps[0]["d"] - steps[0]["mu"]) / steps[0]["std"]
             if 0.05 < abs(t) < 5.0:
                 for f in (0.99, 1.01):
@@ -583,11 +586,6 @@ def run(ctx):
                         seqs.append({"k": c["k"], "st": c["st"], "alpha": a, "ref": c["ref"], "batches": c["batches"][:1],
                                      "seeds": c["seeds"][:1], "kind": "probe"})
         for f in fails:
-            if f["signature"] == KNOWN_ZERO_VAR:
-                # ctx keeps at most 50 failing inputs: the recorded finding must not crowd out anything else
-                ctx.count("step:known finding (std = 0, NaN threshold, d > mean)")
-                if ctx.stats["step:known finding (std = 0, NaN threshold, d > mean)"] > 3:
-                    continue
             ctx.fail(**f)
         lines.append("new nndvi %d %d %s" % (c["k"], c["st"], core.f2b(z))); hooks.append(None)
         lines.append("ref %d %d %s" % (c["ref"].shape[1], len(c["ref"]), bits_rows(c["ref"]))); hooks.append(None)
@@ -605,10 +603,12 @@ def run(ctx):
                 ctx.count("step:drift"); ndr += 1
             else:
                 ctx.count("step:no drift")
-                if s["theta"] is not None and s["theta"] == s["theta"] and s["d"] > s["mu"]:
+                if s["theta"] is not None and s["d"] > s["mu"]:
                     ctx.count("step:no drift with mean < d <= threshold")
             if s["std"] is not None and s["std"] == 0.0:
-                ctx.count("step:std=0 (NaN threshold)")
+                ctx.count("step:std=0 (threshold = mean)")
+                if s["obs"]["state"] == "drift":
+                    ctx.count("step:drift with std=0")
             if ndr and s["obs"]["state"] != "drift" and s["exc"] is None:
                 ctx.count("step:accepted after an earlier drift")
             ctx.case(("seq", i, s["t"], c["k"], c["st"], c["alpha"], s["X"].tolist()), s["exc"] is None)
@@ -637,7 +637,7 @@ def run(ctx):
     # the input distribution must not degenerate
     need = ["step:drift", "step:no drift", "step:accepted after an earlier drift", "pair:unequal-sizes",
             "pair:shared points", "pair:0<dist<1", "step:no drift with mean < d <= threshold", "probe:drift", "probe:no drift",
-            "step:distance == threshold exactly"]
+            "step:distance == threshold exactly", "step:drift with std=0"]
     missing = [n for n in need if ctx.stats.get(n, 0) < 3]
     if missing and not ctx.failing:
         raise core.Infra("degenerate input distribution: " + ", ".join(missing))
@@ -664,7 +664,7 @@ def search(ctx, mismatches):
                 c = gen_sequence(rng, j)
                 c["k"], c["st"], c["alpha"] = m["k_nn"], m["sampling_times"], m["alpha"]
                 _, fails = run_sequence(NNDVI, NNSP, c, float(norm.ppf(1 - c["alpha"])))
-                found += [f for f in fails if f["signature"] != KNOWN_ZERO_VAR]
+                found += fails
                 if found:
                     return found[:5]
     return found
